@@ -561,3 +561,18 @@ ANCHORS = [('swh/model/from_disk.py', 'ignore_empty_directories'),
            ('swh/model/from_disk.py', 'Directory.to_model'),
            ('swh/model/merkle.py', 'MerkleNode.iter_tree'),
            ('swh/model/merkle.py', 'MerkleNode._iter_tree')]
+
+
+# most generated trees are too large for the executable SHA-1 under vm_compute: coq_cases gets every case and keeps the first
+# small ones (it shrinks the list it is given IN PLACE: the evidence's `n` is the number evaluated)
+COQ_SAMPLE = 1 << 30
+
+
+def coq_cases(cases):
+    """from_disk with every filter kind and max_content_length (both listing orders), from_disk_iter, prune_empty /
+    prune_named + node_id, export and mt_id with H := Sha1.sha1 evaluated by vm_compute inside Coq vs the extracted driver,
+    on small trees: the hand-written FIXED cases and the first small generated ones (extraction cross-check)"""
+    from .c06 import coq_from_disk, coq_tree_bytes
+    small = [c for c in cases if count_nodes(c["tree"]) <= 10 and coq_tree_bytes(c["tree"]) <= 400][:16]
+    cases[:] = small
+    return coq_from_disk(ID, [(c, requests(c)) for c in small])
